@@ -167,13 +167,9 @@ def run_contract(prop: str, c: FnContract, reg: Registry, uni: Universe, *, repo
         short = rel.split("/")[-1]
         ex = executor_cls(mod, reg, uni, **(executor_kw or {}))
         ex.contract = c
-<<<<<<< HEAD
         # `oid_name` (optional contract attribute): stable name for the obligation ids of a function that the pack locates by its
         # role rather than by its name (e.g. a nested helper that may be renamed); default: the qualname
         ex.oid_prefix = f"{prop}/{short}::{getattr(c, 'oid_name', None) or qual}"
-=======
-        ex.oid_prefix = f"{prop}/{short}::{getattr(c, 'oid_name', None) or qual}"     # oid_name: stable obligation ids for a target found by role after a rename
->>>>>>> r3-C14
         obls, covers = generate(ex, c, mod, fnode)
         rep.paths = ex.paths
         rep.assumed_used = sorted(ex.assumed_used)
